@@ -157,6 +157,7 @@ class Suite:
     show = None            # optional Coq function case -> printable (the model's own output)
     scope = "Z_scope"
     informative = False    # True: a pure model disagreement is a note, not a failure
+    ctype = None           # Coq type of one case (needed when it cannot be inferred from the literals)
 
     def gen(self, tier, rng):
         raise NotImplementedError
@@ -182,7 +183,7 @@ class Suite:
 def coq_file(suite, terms, with_show=None):
     lines = ["From Corankco Require Import Prelude " + " ".join(suite.imports) + ".",
              "Require Import String.", f"Local Open Scope {suite.scope}.",
-             "Definition cases := ["]
+             ("Definition cases : list (%s) := [" % suite.ctype) if suite.ctype else "Definition cases := ["]
     lines.append(";\n".join(terms))
     lines.append("].")
     lines.append(f"Eval vm_compute in (map {suite.judge} cases).")
